@@ -334,6 +334,17 @@ def add (name : Path) : M (Option Err) := do
   | .error e => pure (some e)
   | .ok _ => do addUserWatch (clean name); pure none
 
+/-- `rm` when `register(EV_DELETE)` failed: the error is returned — unless the Watcher is closed (finding F18,
+repaired: `Close()` runs `rm` for every path after marking the Watcher closed, and the reader may have
+closed the queue itself by then; the descriptor is closed and forgotten all the same. The loop over the
+entries of a directory calls `Remove`, which returns at once on a closed Watcher: nothing to model) -/
+def rmErr (e : FsErr) (info : KW) (name : Path) : M (Option Err) := do
+  let s ← get
+  if !s.closed then pure (some (.fs e)) else do
+    closeFd info.wd
+    let _ ← watchesRemove info.wd name
+    pure none
+
 /-- `rm(name, unwatchFiles)`; `Remove(name)` = `remove(name, true)` = closed-check + `rm` -/
 def rm : Nat → Path → Bool → M (Option Err)
   | 0, _, _ => do setBad "rm: out of fuel"; pure none
@@ -342,7 +353,7 @@ def rm : Nat → Path → Bool → M (Option Err)
     let (info, ok) ← byPath name
     if !ok then pure (some .nonExistent) else
     match ← registerDelete info.wd with
-    | .error e => pure (some (.fs e))
+    | .error e => rmErr e info name
     | .ok () => do
       closeFd info.wd
       let isDir ← watchesRemove info.wd name
